@@ -24,6 +24,7 @@ structure ColInfo where
   dataType : String := ""
   notNull : Bool := false
   isArray : Bool := false
+  merged : Bool := false                     -- the right-hand copy of a JOIN … USING column: reachable by qualifier only
 deriving Repr, DecidableEq, Inhabited
 
 structure Rel where
@@ -61,7 +62,7 @@ def resolveCol : List Scope → Option String → String → SRes ColInfo
     let rels : List Rel := match q with
       | some qn => sc.filter (fun (r : Rel) => r.qual == qn)
       | none => sc
-    let hits := rels.flatMap (fun (r : Rel) => r.cols.filter (·.name == c))
+    let hits := rels.flatMap (fun (r : Rel) => r.cols.filter (fun ci => ci.name == c && (q.isSome || !ci.merged)))
     match hits with
     | [h] => .ok h
     | [] =>
@@ -183,7 +184,10 @@ def allResolve (scopes : List Scope) (e : Node) : SRes Unit :=
 or of the relations called `q`, in from-clause order then declaration order -/
 def starOf (level : Scope) (parts : List String) : SRes (List ColInfo) :=
   match parts with
-  | [] => .ok (level.flatMap (·.cols))
+  | [] =>
+    -- (with merged columns the database lists the USING columns first: not reproduced here)
+    if level.any (fun r => r.cols.any (·.merged)) then .error (.unsupported "* over JOIN USING") else
+    .ok (level.flatMap (·.cols))
   | qs =>
     let q := qs.getLastD ""
     let rels := level.filter (·.qual == q)
@@ -239,11 +243,14 @@ def analyzeLevel (c : Cat) : Nat → List (String × List ColInfo) → List Scop
           | some a => pure ([{ qual := a, cols := applyColNames (aliasColNames it) s.shape }], s.pairs)
           | none => .error (.unsupported "subquery in FROM without alias")
         | "JoinExpr" => do
-          if !(it.get "UsingClause").isNull && !(it.get "UsingClause").items.isEmpty then .error (.unsupported "JOIN USING") else
           if (it.get "IsNatural").boolVal then .error (.unsupported "NATURAL JOIN") else
           let l ← fromItem fuel (it.get "Larg")
           let r ← fromItem fuel (it.get "Rarg")
-          pure (l.1 ++ r.1, l.2 ++ r.2)
+          -- JOIN … USING (c): unqualified `c` means the merged column (the left operand's); the right operand's
+          -- copy stays reachable through its qualifier
+          let usingCols := if (it.get "UsingClause").isNull then [] else (it.get "UsingClause").stringItems
+          let r1 := r.1.map (fun (rel : Rel) => { rel with cols := rel.cols.map (fun ci => if usingCols.contains ci.name then { ci with merged := true } else ci) })
+          pure (l.1 ++ r1, l.2 ++ r.2)
         | "RangeFunction" =>
           -- a set-returning function in FROM that yields ONE column, named after the alias (or the first name of
           -- the alias' column list); every other form is outside the oracle
